@@ -147,8 +147,13 @@ def truthiness_uses(fn_node, name):
                 if isinstance(c, ast.UnaryOp) and isinstance(c.op, ast.Not):
                     c = c.operand
                 # the truth value of as_list(x) / list(x) / len(x) ... is that of x for every empty container (and None for as_list)
-                while isinstance(c, ast.Call) and call_name(c) in ('as_list', 'as_tuple', 'list', 'tuple', 'len', 'sorted', 'set') and len(c.args) == 1 and not c.keywords:
-                    c = c.args[0]
+                while True:
+                    if isinstance(c, ast.Call) and call_name(c) in ('as_list', 'as_tuple', 'list', 'tuple', 'len', 'sorted', 'set') and len(c.args) == 1 and not c.keywords:
+                        c = c.args[0]
+                    elif isinstance(c, (ast.ListComp, ast.SetComp, ast.GeneratorExp)) and len(c.generators) == 1 and not c.generators[0].ifs and not isinstance(c, ast.GeneratorExp):
+                        c = c.generators[0].iter            # [f(e) for e in X] is empty exactly when X is
+                    else:
+                        break
                 if isinstance(c, ast.Name) and c.id == name:
                     out.append(n)
     # de-duplicate preserving order
